@@ -146,7 +146,7 @@ func b01(b bool) string {
 	return "0"
 }
 
-func (sc *Scenario) hcLine(tb *tables, target string, w waitChoice) string {
+func (sc *Scenario) hcLine(tb *tables, target string, w waitChoice, sched string) string {
 	buf := sc.Buf
 	if buf == 0 {
 		buf = tb.defaultBuf
@@ -163,9 +163,27 @@ func (sc *Scenario) hcLine(tb *tables, target string, w waitChoice) string {
 	default:
 		derr = strconv.Itoa(sc.failCode())
 	}
-	return fmt.Sprintf("hc sn=%s dis=%s buf=%d req=1 addr=%s user=%s pay=%s rerr=%s cn=%s pok=1 sdl=1 cdl=1 cs=%s ts=%s wk=%s wn=%d derr=%s sched=auto",
+	return fmt.Sprintf("hc sn=%s dis=%s buf=%d req=1 addr=%s user=%s pay=%s rerr=%s cn=%s pok=1 sdl=1 cdl=1 cs=%s ts=%s wk=%s wn=%d derr=%s sched=%s",
 		b01(tb.serverNative[sc.Server]), b01(sc.DisableWait), buf, target, user, hexField(stream(sc.CSeed, 0, sc.ReqLen)), rerr,
-		b01(tb.clientNative[sc.Client]), hexField(sc.afterRequest()), hexField(stream(sc.TSeed, 0, sc.targetTotal())), w.kind, w.n, derr)
+		b01(tb.clientNative[sc.Client]), hexField(sc.afterRequest()), hexField(stream(sc.TSeed, 0, sc.targetTotal())), w.kind, w.n, derr, sched)
+}
+
+// schedFor: the schedule of the two copy loops that the scenario's ending means. Error endings put a `fail` label on the
+// loop whose peer aborted. For `wclosed` the number of bytes the relay managed to write into the dead connection is the
+// kernel's business: it is read off the implementation (its uplink figure, which the oracle bounds from both sides).
+func (sc *Scenario) schedFor(o *Obs) string {
+	switch sc.Reset {
+	case "target":
+		return "aL,aR,fR,eL"
+	case "client":
+		return "aL,aR,fL,eR"
+	case "wclosed":
+		if o.Stats.Sessions == 1 && o.Stats.Up < uint64(sc.clientTotal()) {
+			return fmt.Sprintf("aR,eR,uL%d,fL", o.Stats.Up)
+		}
+		return "aR,eR,aL,eL"
+	}
+	return "auto"
 }
 
 // socks5Reply: RFC 1928 section 6 reply for a dial result code (errno based), written from the RFC's list.
@@ -291,20 +309,30 @@ func compare(sc *Scenario, p *Projection, o *Obs) string {
 			d = append(d, fmt.Sprintf("dial payload model=%d bytes impl=%d bytes", len(p.Payload), len(o.DialPayload)))
 		}
 	}
-	if !failed {
+	checkTarget, checkClient := !failed, !failed
+	switch sc.Reset {
+	case "target", "wclosed": // the target is gone: what it held when it left is the oracle's business (bounds)
+		checkTarget = false
+	case "client":
+		checkClient = false
+	}
+	if checkTarget {
 		if !bytes.Equal(p.TargetRx, o.TargetRx) {
 			d = append(d, fmt.Sprintf("target stream model=%d bytes impl=%d bytes (first difference at %d)", len(p.TargetRx), len(o.TargetRx), firstDiff(p.TargetRx, o.TargetRx)))
-		}
-		if !bytes.Equal(p.ClientRx, o.ClientRx) {
-			d = append(d, fmt.Sprintf("client stream model=%d bytes impl=%d bytes (first difference at %d)", len(p.ClientRx), len(o.ClientRx), firstDiff(p.ClientRx, o.ClientRx)))
 		}
 		if p.TargetEOF != o.TargetEOF {
 			d = append(d, fmt.Sprintf("EOF at target model=%v impl=%v", p.TargetEOF, o.TargetEOF))
 		}
+	}
+	if checkClient {
+		if !bytes.Equal(p.ClientRx, o.ClientRx) {
+			d = append(d, fmt.Sprintf("client stream model=%d bytes impl=%d bytes (first difference at %d)", len(p.ClientRx), len(o.ClientRx), firstDiff(p.ClientRx, o.ClientRx)))
+		}
 		if p.ClientEOF != o.ClientEOF {
 			d = append(d, fmt.Sprintf("EOF at client model=%v impl=%v", p.ClientEOF, o.ClientEOF))
 		}
-	} else {
+	}
+	if failed {
 		if len(o.ClientRx) != 0 {
 			d = append(d, fmt.Sprintf("client received %d bytes after a failed connection", len(o.ClientRx)))
 		}
